@@ -866,6 +866,47 @@ func (x *gen) next() Event {
 	}
 	g, w := x.g, x.w
 	roll := g.Intn(100)
+	if l := x.live(); len(l) > 0 && g.Chance(0.08) {
+		// one name is dropped and, in the same update, replaced by a duplicate (other spelling) of a name that stays - or of
+		// the cluster's own name - so that the list keeps its length; afterwards another cluster claims the dropped name
+		c := l[g.Intn(len(l))]
+		if o := x.cur(c); w.pend[c] == nil && w.model.Live(c) && len(o.Names) >= 1 {
+			j := g.Intn(len(o.Names))
+			dropped := strings.ToLower(o.Names[j])
+			rest := append(append([]string{}, o.Names[:j]...), o.Names[j+1:]...)
+			stillListed := dropped == c
+			for _, n := range rest {
+				if strings.ToLower(n) == dropped {
+					stillListed = true
+				}
+			}
+			if !stillListed && w.model.Owner[dropped] == c {
+				dup := c
+				if len(rest) > 0 && g.Chance(0.6) {
+					dup = rest[g.Intn(len(rest))]
+				}
+				// another spelling of the duplicated name (names are compared case-insensitively)
+				if alt := strings.ToUpper(dup); alt != dup && g.Bool() {
+					dup = alt
+				} else {
+					dup = mixCase(strings.ToLower(dup))
+				}
+				o.Names = append(rest, dup)
+				if g.Bool() {
+					g.Shuffle(o.Names)
+				}
+				x.classes["replaced-by-duplicate"] = true
+				// the dropped name is free now: another cluster takes it
+				b := x.pickCluster(g.Chance(0.6))
+				if b != c && b != dropped {
+					ob := x.cur(b)
+					ob.Names = append(ob.Names, randCase(g, dropped))
+					x.planned = append(x.planned, Event{Kind: "apply", Name: b, Obj: ob, Note: "takes the dropped name " + dropped})
+				}
+				return Event{Kind: "apply", Name: c, Obj: o, Note: "drops " + dropped + ", lists a duplicate of " + strings.ToLower(dup) + " instead (same length)"}
+			}
+		}
+	}
 	if l := x.live(); len(l) > 0 && g.Chance(0.12) {
 		// in-place rotation of TLS material: same object name, same server names; only the key pair, only the client CA,
 		// both, or one of them removed / added
@@ -1063,7 +1104,8 @@ func TestCheck(t *testing.T) {
 		r.Rule("seeded random histories of apply/delete/re-delivery events over 6 cluster names and a 9-entry alias pool (mixed case, includes other clusters' names), " +
 			"with scripted sub-sequences: collisions (a name of another live cluster is claimed, also as the object's own name), alias moves A->B in both orders " +
 			"(release first; claim first = refused, then re-delivered after the release), rename by delete+create in both orders, case changes / reorders / duplicates, " +
-			"delete events for objects the controller refused or never saw, in-place rotation of a live cluster's serving key pair / client CA / both (changed, removed, added; names unchanged) " +
+			"delete events for objects the controller refused or never saw, a name dropped and replaced in the same update by a duplicate (other spelling) of a remaining name or of the cluster's own name " +
+			"so that the list keeps its length, followed by another cluster claiming the dropped name, in-place rotation of a live cluster's serving key pair / client CA / both (changed, removed, added; names unchanged) " +
 			"with the cluster's hosts used as SNI (GetConfigForClient and, in traffic histories, a real handshake) immediately before and after the update. The base GetConfigForClientFunc " +
 			"returns one long-lived *tls.Config in 2 of 3 histories and a fresh clone in the others. The real UpstreamClusterController processes every event (VerifSync over a scripted lister). " +
 			"After EVERY event: all 12 base names x 5 case/port variants are resolved through the production path and compared with a first-claimant ownership model " +
@@ -1123,7 +1165,7 @@ func TestCheck(t *testing.T) {
 		r.Require(r.Counter("handshakes_checked") >= int64(nh/3), "too few TLS handshakes")
 		r.Require(r.Counter("rotations") >= int64(nh/2) && r.Counter("rotation_hosts_used_before_and_after") >= int64(nh) && r.Counter("rotation_handshakes_after") >= int64(nh/4),
 			"too few in-place rotations of TLS material with hosts used before and after")
-		for _, c := range []string{"rotation", "collision", "move-release-first", "move-claim-first", "rename", "case-change", "delete", "redeliver"} {
+		for _, c := range []string{"replaced-by-duplicate", "rotation", "collision", "move-release-first", "move-claim-first", "rename", "case-change", "delete", "redeliver"} {
 			r.Require(classCount[c] >= nh/20, "scenario class "+c+" under-represented")
 		}
 	})
